@@ -145,6 +145,7 @@ def tapTree (net : String) (prv : PrvKeys) (i : Nat) : Tree → Option Taproot.T
     match tapTree net prv i l, tapTree net prv i r with
     | some a, some b => some (.node a b)
     | _, _ => none
+  | .ms n => (Miniscript.script .tapscript E.bip.h160 n).map fun s => .leaf 0xC0 s
 
 /-- `ScriptPubKey.p2tr(internal_key, script_tree)`: OP_1 and the C12 output key. -/
 def p2tr (sec : Bytes) (tree : Option Taproot.Tree) : Option Bytes :=
@@ -174,6 +175,7 @@ def scripts (net : String) (prv : PrvKeys) (i : Nat) : D → Option (List Bytes)
     | .ok (s, _) => some [s]
     | .error _ => none
   | .raw s => some [s]
+  | .ms n => (Miniscript.script .p2wsh E.bip.h160 n).map fun s => [s]
 
 /-- `Descriptor.script_pub_keys(index, prv_keys)`: `_assert_index`, then the scripts. -/
 def scriptPubKeys (net : String) (prv : PrvKeys) (d : D) (i : Nat) : Option (List Bytes) :=
